@@ -14,7 +14,7 @@
    forwarder has not taken yet, a's mailbox / received items that came through s, a alive). *)
 From Coq Require Import List NArith Bool Arith.
 From RV Require Import OutPort.Spec OutPort.SpecProofs OutPort.Harness OutPort.HarnessProofs.
-From RV Require OutPort.V1 OutPort.V2 OutPort.V1Proofs OutPort.V2Proofs OutPort.V2NoDup.
+From RV Require OutPort.V1 OutPort.V2 OutPort.V1Proofs OutPort.V2Proofs OutPort.V2NoDup OutPort.V1Handles.
 Import ListNotations.
 
 (* ---------------- default port (tokio broadcast, one forwarding task per subscription) *)
@@ -101,6 +101,24 @@ Theorem C16_v1_publish_nonblocking : forall C cv cap (st : V1.state C) m,
     /\ V1.order C st' = V1.order C st /\ V1.handles C st' = V1.handles C st
     /\ V1.rxcnt C st' = V1.rxcnt C st.
 Proof. exact V1Proofs.publish_nonblocking. Qed.
+
+(* (6b) default port: the subscription vector never loses a forwarding task that is still
+   running (every reachable state) ... *)
+Theorem C16_v1_handles_keep_live : forall C cv cap ls st,
+  V1.run C cv cap (V1.init C) ls = Some st ->
+  filter (V1Handles.alive C (V1.tasks C st)) (V1.handles C st)
+  = filter (V1Handles.alive C (V1.tasks C st)) (V1.order C st).
+Proof. exact V1Handles.v1_handles_keep_live. Qed.
+
+(* (6c) ... and right after every subscribe it holds exactly the live subscriptions in creation
+   order: the subscription of a stopped subscriber whose task has ended is dropped, a live
+   one is never pruned *)
+Theorem C16_v1_subscribe_prunes_exactly : forall C cv cap ls st st' s a c,
+  V1.run C cv cap (V1.init C) ls = Some st ->
+  V1.step C cv cap st (V1.LSubscribe s a c) = Some st' ->
+  V1.handles C st' = filter (V1Handles.alive C (V1.tasks C st')) (V1.order C st')
+  /\ (forall h, In h (V1.handles C st') -> V1.is_dead C st' h = false).
+Proof. exact V1Handles.v1_subscribe_prunes_exactly. Qed.
 
 (* ---------------- v2 port, for both values `ad` of allow_duplicate_subscription (the public
    port uses true; with false a new subscription of an actor replaces that actor's previous
@@ -306,6 +324,8 @@ Print Assumptions C16_v1_other_steps_invisible.
 Print Assumptions C16_v1_drop_drains.
 Print Assumptions C16_v1_end_needs_drained.
 Print Assumptions C16_v1_publish_nonblocking.
+Print Assumptions C16_v1_handles_keep_live.
+Print Assumptions C16_v1_subscribe_prunes_exactly.
 Print Assumptions C16_v2_publish_nonblocking.
 Print Assumptions C16_v2_refines_sub1.
 Print Assumptions C16_v2_exact.
